@@ -8,6 +8,12 @@ Line-protocol front end of the C09 model (requests after the leading `C09` field
   vm    nGlobals nThreads prog sched      → ok <alone globals> <t:globals|…>   (Impl VM model)
         prog  = stmt;stmt;…   stmt = target=tokens   tokens (prefix): L<n> G<i> A e e  C<ty> e  I<m>
         sched = t,t,t,…
+  res   policy nAgents events             → ok <t:log|…> <t:alone log|…>      (Model §4; policy = fresh|pooled|cached)
+        events = a<t> (acquire) w<t>:<v> (write) r<t> (observe) x<t> (release), comma separated
+  mach  policy nEvals events              → ok <e:loads:halted|…> <e:loads:halted|…> (full schedule, then each evaluation alone)
+        events = s<e> (start) i<e> (eval-loop trip) f<e> (finish) c<e> (cancel e's own context); halted = - or the trip
+  regrows                                 → every reviewed registry row: method|kind|detail|type|ok  joined by `;`
+  machsrc fn                              → fresh | not-fresh   (does fn of package vm allocate its machine per request)
 -/
 namespace Risor.C09
 open Risor.Util
@@ -58,6 +64,40 @@ def parseStmt (s : String) : Option Stmt :=
 def showNats (xs : List Nat) : String :=
   if xs.isEmpty then "-" else ",".intercalate (xs.map toString)
 
+
+def parsePolicy : String → Option Policy
+  | "fresh" => some .fresh
+  | "pooled" => some .pooled
+  | "cached" => some .cached
+  | _ => none
+
+def parseREv (tok : String) : Option REv :=
+  match tok.toList with
+  | 'a' :: ds => (String.ofList ds).toNat?.map REv.acq
+  | 'r' :: ds => (String.ofList ds).toNat?.map REv.rd
+  | 'x' :: ds => (String.ofList ds).toNat?.map REv.rel
+  | 'w' :: ds =>
+    match (String.ofList ds).splitOn ":" with
+    | [t, v] =>
+      match t.toNat?, v.toNat? with
+      | some t, some v => some (REv.wr t v)
+      | _, _ => none
+    | _ => none
+  | _ => none
+
+def parseMEv (tok : String) : Option MEv :=
+  match tok.toList with
+  | 's' :: ds => (String.ofList ds).toNat?.map MEv.start
+  | 'i' :: ds => (String.ofList ds).toNat?.map MEv.instr
+  | 'f' :: ds => (String.ofList ds).toNat?.map MEv.finish
+  | 'c' :: ds => (String.ofList ds).toNat?.map MEv.cancel
+  | _ => none
+
+def showOutcome (o : MOutcome) : String :=
+  toString o.loads ++ ":" ++ (match o.halted with | some i => toString i | none => "-")
+
+def splitEvents (s : String) : List String := if s == "-" then [] else s.splitOn ","
+
 def handle : List String → String
   | ["table"] => ";".intercalate (implSites.map showSite)
   | ["pair", la, fa, wa, lb, fb, wb] =>
@@ -76,6 +116,22 @@ def handle : List String → String
       "ok\t" ++ showNats (aloneResult code ng) ++ "\t"
         ++ "|".intercalate ((List.range nt).map fun t => toString t ++ ":" ++ showNats (fin t).globals)
     | _, _, _, _ => "error\tbad-vm-request"
+  | ["res", pol, na, evs] =>
+    match parsePolicy pol, na.toNat?, (splitEvents evs).mapM parseREv with
+    | some p, some n, some evs =>
+      "ok\t" ++ "|".intercalate ((List.range n).map fun t => toString t ++ ":" ++ showNats (observed p evs t))
+        ++ "\t" ++ "|".intercalate ((List.range n).map fun t => toString t ++ ":" ++ showNats (observedAlone p evs t))
+    | _, _, _ => "error\tbad-res-request"
+  | ["mach", pol, ne, evs] =>
+    match parsePolicy pol, ne.toNat?, (splitEvents evs).mapM parseMEv with
+    | some p, some n, some evs =>
+      "ok\t" ++ "|".intercalate ((List.range n).map fun e => toString e ++ ":" ++ showOutcome (machineOutcome p evs e))
+        ++ "\t" ++ "|".intercalate ((List.range n).map fun e => toString e ++ ":" ++ showOutcome (machineOutcomeAlone p evs e))
+    | _, _, _ => "error\tbad-mach-request"
+  | ["regrows"] =>
+    ";".intercalate (registryRows.map fun r =>
+      r.1 ++ "|" ++ r.2.1 ++ "|" ++ (if r.2.2.1 == "" then "-" else r.2.2.1) ++ "|" ++ r.2.2.2 ++ "|" ++ b2s (regRowOK r))
+  | ["machsrc", fn] => if machineFresh machineSourceRows 6 fn then "fresh" else "not-fresh"
   | _ => "error\tunknown-request"
 
 end Risor.C09
